@@ -137,6 +137,64 @@ def run_post(kind: str, is_async: bool, mode: str, p0: int, d1: int, p1: int, sn
     return ok, witness
 
 
+_TWO_BASES = {}  # type: Dict[Any, Any]
+TB_KINDS = ["method", "classmethod", "staticmethod", "dunder_str"]
+
+
+def run_two_bases_post(kind_i: int, order: int, mixin_defines: bool, tq: bool) -> Tuple[bool, bool]:
+    """class Third(Contracted, Mixin) / Third(Mixin, Contracted): Contracted.m has a postcondition, the plain mix-in provides m
+    without any contract (or, for ``__str__``, merely inherits it from ``object``); Third overrides m without own contracts and
+    still has to satisfy the inherited postcondition."""
+    import icontract
+    from vfw.hlib import untraced
+    kind_i, order = conc(kind_i, 0, len(TB_KINDS) - 1), conc(order, 0, 1)
+    mixin_defines = True if mixin_defines else False
+    kind = TB_KINDS[kind_i]
+    key = (kind, order, mixin_defines)
+    with untraced():
+        w = _TWO_BASES.get(key)
+        if w is None:
+            w = {"truth": True, "log": []}
+            hw = w
+            name = "__str__" if kind == "dunder_str" else "m"
+            first = {"method": "self", "classmethod": "cls", "staticmethod": "", "dunder_str": "self"}[kind]
+
+            def wrap(f: Any) -> Any:
+                return {"classmethod": classmethod, "staticmethod": staticmethod}.get(kind, lambda g: g)(f)
+
+            def mkbody(label: str) -> Any:
+                ns = {"hw": hw}  # type: Dict[str, Any]
+                exec("def {}({}):\n    hw['log'].append('body')\n    return {!r}\n".format(name, first, label), ns)
+                return ns[name]
+
+            def post(result: Any) -> Any:
+                hw["log"].append("post")
+                return hw["truth"]
+            contracted = icontract.DBCMeta("Contracted", (icontract.DBC,), {
+                name: wrap(icontract.ensure(post, error=lambda: Tag("post"))(mkbody("contracted")))})
+            mixin = type("Mixin", (), {name: wrap(mkbody("mixin"))} if mixin_defines else {})
+            bases = (contracted, mixin) if order == 0 else (mixin, contracted)
+            third = icontract.DBCMeta("Third", bases, {name: wrap(mkbody("third"))})
+            inst = third()
+            if kind == "dunder_str":
+                w["call"] = lambda: inst.__str__()
+            elif kind in ("classmethod", "staticmethod"):
+                w["call"] = lambda: third.m()
+            else:
+                w["call"] = lambda: inst.m()
+            _TWO_BASES[key] = w
+    w["truth"] = tq
+    del w["log"][:]
+    try:
+        got = ("ret", fresh(w["call"]))  # type: Tuple[str, Any]
+    except Tag as err:
+        got = ("tag", err.label)
+    want = ("ret", "third") if tq else ("tag", "post")
+    ok = got == want and w["log"] == ["body", "post"]
+    note(("two_bases_post", kind, order, mixin_defines, got[0]), not tq)
+    return ok, not tq
+
+
 ALL = ["p0", "d1", "p1", "snaps", "pre", "bo", "fg", "t0", "t1", "t2", "t3", "t4", "x"]
 
 
@@ -147,6 +205,12 @@ def _mk(kind: str, is_async: bool, mode: str, params: List[Any]):  # type: ignor
 
 def harnesses(tier: str) -> List[H]:
     out = []  # type: List[H]
+    TB = ["kind_i", "order", "mixin_defines", "tq"]
+    out.append(H("two_bases_post", bind(run_two_bases_post, (), TB, {}, TB),
+                 [I("kind_i", 0, len(TB_KINDS) - 1), I("order", 0, 1), B("mixin_defines"), B("tq")], tiers=(tier,), timeout=200,
+                 family="class Third(Contracted, Mixin) in both base orders; member kinds {}; the plain mix-in defines the member "
+                        "without contracts or not at all; Third overrides it without own contracts".format(TB_KINDS),
+                 family_size=len(TB_KINDS) * 4))
     for kind in ALL_KINDS:
         for is_async in (False, True):
             if is_async and kind not in ASYNC_KINDS:
